@@ -309,7 +309,7 @@ func exprKey(v ssa.Value) string {
 var keyMemo = map[ssa.Value]string{}
 
 func shortKey(k string) string {
-	if len(k) <= 120 {
+	if len(k) <= 160 {
 		return k
 	}
 	h := uint32(2166136261)
